@@ -22,7 +22,7 @@ import Thanos.Model.Sharding
 
   C42 op (grammar in harness/cmd/frontend/c42.go):
     cache.hist <align 0|1> <splitMs> <data> <reqs>   -> <resp>|<resp>|…
-    cache.fresh <B> <splitMs> <poison|-> <data> <reqs with :flush>   -> <resp>|<resp>|…
+    cache.fresh <B> <splitMs> <poison|-> <data> <reqs with :loss 0|1|2|3>   -> <resp>|<resp>|…
 
   C44 ops (grammar in harness/cmd/frontend/c44.go):
     shard.analyze E                                            -> none | by:<l,l> | without:<l,l>
@@ -183,12 +183,21 @@ def pReq (t : String) : Option Req :=
     then none else pure r
   | _ => none
 
-/-- `<start>:<end>:<step>:<flush>` with steps that are multiples of one minute -/
-def pFreshReq (t : String) : Option (Req × Bool) :=
+/-- what the cache loses before a request: `0` nothing, `1` everything, `2` / `3` the keys with an
+    even / odd split-interval index -/
+def pLose (t : String) : Option (Key → Bool) :=
+  if t = "0" then some fun _ => false
+  else if t = "1" then some fun _ => true
+  else if t = "2" then some fun k => k.idx % 2 == 0
+  else if t = "3" then some fun k => k.idx % 2 == 1
+  else none
+
+/-- `<start>:<end>:<step>:<loss>` with steps that are multiples of one minute -/
+def pFreshReq (t : String) : Option (Req × (Key → Bool)) :=
   match splitChar ':' t with
   | [a, b, c, f] => do
     let r : Req := ⟨← parseInt? a, ← parseInt? b, ← parseInt? c⟩
-    let fl ← pBool f
+    let fl ← pLose f
     if r.start < 0 ∨ r.stop < r.start ∨ r.step ≤ 0 ∨ r.start.tmod 1000 ≠ 0 ∨ r.stop.tmod 1000 ≠ 0 ∨ r.step.tmod 60000 ≠ 0
     then none else pure (r, fl)
   | _ => none
@@ -225,7 +234,7 @@ def showCalls (rs : List Req) : String :=
 def traceHistory (cfg : Cfg) (D : Down) (align : Bool) (splitMs : Int) : Cache → List Step → List String
   | _, [] => []
   | c, s :: rs =>
-    let c0 := if s.flush then [] else c
+    let c0 := evict s.lose c
     match frontend cfg s.env D align splitMs c0 s.req with
     | some (m, c') =>
       (joinWith ";" (m.map fun st => s!"{st.1}:" ++ joinWith "," (st.2.map fun x => s!"{x.t}={x.v}")) ++ "#" ++
@@ -240,7 +249,7 @@ def handleC42 : List String → String
     match pBool al, parseInt? sp, (listOf ';' data).mapM pSeriesData, (listOf ',' reqs).mapM pReq with
     | some align, some splitMs, some data, some reqs =>
       if splitMs ≤ 0 ∨ splitMs.tmod 1000 ≠ 0 ∨ reqs.isEmpty ∨ (data.map (·.1)).eraseDups.length ≠ data.length then "bad-op" else
-      "|".intercalate (traceHistory liveCfg (mkDown data) align splitMs [] (reqs.map fun r => ⟨Env.far, false, r⟩))
+      "|".intercalate (traceHistory liveCfg (mkDown data) align splitMs [] (reqs.map fun r => ⟨Env.far, fun _ => false, r⟩))
     | _, _, _, _ => "bad-op"
   | ["cache.fresh", b, sp, poison, data, reqs] =>
     let pz : Option (Option Int) := if poison = "-" then some none else (parseInt? poison).map some
